@@ -274,6 +274,7 @@ func init() {
 	}
 	gridCheck("C05", []func() GridDriver{
 		func() GridDriver { return NewFeeGrid(1) }, func() GridDriver { return NewFeeGrid(4) }, func() GridDriver { return NewFeeGrid(7) },
+		func() GridDriver { return NewFeeGridIR(1, 2) }, func() GridDriver { return NewFeeGridIR(4, 3) },
 	}, 25, 120, nil)
 	{
 		// C19: five ledger explorations (Notary on/off x Alphabet sizes) + the emit/acceptance grid
